@@ -346,7 +346,12 @@ func callbackKind(c *Ctx, i ssa.Instruction) string {
 		case strings.HasSuffix(e, ".FingerprintFunc"):
 			return "fingerprint.FingerprintFunc"
 		}
-		if t := typeName(cc.Value.Type()); t == "func(http.ResponseWriter, *http.Request)" || t == "http.HandlerFunc" {
+		// by underlying type: a named function type introduced for readability is the same callback
+		if t := typeName(cc.Value.Type().Underlying()); t == "func(http.ResponseWriter, *http.Request)" || t == "func(w http.ResponseWriter, r *http.Request)" || typeName(cc.Value.Type()) == "http.HandlerFunc" {
+			return "http.Handler func"
+		}
+		if sig, ok := cc.Value.Type().Underlying().(*types.Signature); ok && sig.Params().Len() == 2 && sig.Results().Len() == 0 &&
+			typeName(sig.Params().At(0).Type()) == "http.ResponseWriter" && typeName(sig.Params().At(1).Type()) == "*http.Request" {
 			return "http.Handler func"
 		}
 	}
@@ -640,14 +645,28 @@ func panicMessage(c *Ctx, p *ssa.Panic) string {
 	if s, ok := constString(p.X); ok {
 		return s
 	}
+	// a formatted message is named by its format: Sprintf/Errorf with a constant format, errors.New of a constant
+	if call, ok := unwrapIface(p.X).(*ssa.Call); ok {
+		switch calleeName(&call.Call) {
+		case "fmt.Sprintf", "fmt.Errorf", "errors.New":
+			if len(call.Call.Args) >= 1 {
+				if s, ok := constString(call.Call.Args[0]); ok {
+					return s
+				}
+			}
+		}
+	}
 	e := c.Expr(p.X)
 	if strings.HasPrefix(e, `"`) {
 		return strings.Trim(e, `"`)
 	}
-	if strings.HasPrefix(e, "fmt.Sprintf(\"") || strings.HasPrefix(e, "fmt.Errorf(\"") || strings.HasPrefix(e, "errors.New(\"") {
-		s := e[strings.Index(e, "\"")+1:]
-		if k := strings.Index(s, "\""); k >= 0 {
-			return s[:k]
+	// a message assembled by concatenation: its literal skeleton
+	for _, tag := range []string{`text"`, `errtext"`} {
+		if strings.HasPrefix(e, tag) {
+			s := e[len(tag):]
+			if k := strings.Index(s, `"[`); k >= 0 {
+				return strings.ReplaceAll(s[:k], "⟨⟩", "%v")
+			}
 		}
 	}
 	return "dyn"
